@@ -3,25 +3,26 @@
 /verif/seeded/<ID>-<n>/patch.diff (applied to /repo, undone afterwards) and record the outcome
 in meta.json. Usage: seed_matrix.py [ID-n ...]   (default: all)"""
 import json, os, re, subprocess, sys, glob, time
+REPO = os.environ.get('SM_REPO', '/repo'); VERIF = os.environ.get('SM_VERIF', '/verif')  # a second stream may use a scratch copy of both (never for C14: its programs name /repo)
 def sh(cmd, **kw): return subprocess.run(cmd, shell=True, capture_output=True, text=True, **kw)
 dirs = sorted(glob.glob('/verif/seeded/C*-*'))
 if len(sys.argv) > 1: dirs = [d for d in dirs if os.path.basename(d) in sys.argv[1:]]
-assert sh('git -C /repo diff --quiet').returncode == 0, "/repo is dirty"
+assert sh(f'git -C {REPO} diff --quiet').returncode == 0, "/repo is dirty"
 rows = []
 for d in dirs:
     name = os.path.basename(d); pid = name.split('-')[0]
     patch = f'{d}/patch.diff'
-    r = sh(f'git -C /repo apply {patch}')
+    r = sh(f'git -C {REPO} apply {patch}')
     if r.returncode != 0:
         print(name, 'APPLY FAILED', r.stderr[:200]); continue
     t0 = time.time()
     try:
-        c = sh(f'cd /verif && PTV_NO_EVIDENCE=1 ./check {pid} quick', timeout=900)
+        c = sh(f'cd {VERIF} && PTV_NO_EVIDENCE=1 ./check {pid} quick', timeout=900)
         out, code = c.stdout, c.returncode
     except subprocess.TimeoutExpired:
         out, code = 'TIMEOUT', 2
     finally:
-        sh('git -C /repo checkout -- .')
+        sh(f'git -C {REPO} checkout -- .')
     sig = re.search(r'violated oracle: (\S+) \[(.*?)\]', out)
     meta_path = f'{d}/meta.json'
     meta = json.load(open(meta_path)) if os.path.exists(meta_path) else {}
@@ -42,5 +43,5 @@ for d in dirs:
     json.dump(meta, open(meta_path, 'w'), indent=1)
     rows.append((name, code, sig.group(2) if sig else '-'))
     print(name, 'exit', code, sig.group(2) if sig else '-', flush=True)
-assert sh('git -C /repo diff --quiet').returncode == 0
+assert sh(f'git -C {REPO} diff --quiet').returncode == 0
 print('detected', sum(1 for r in rows if r[1] == 1), 'of', len(rows))
